@@ -15,8 +15,10 @@ import time
 from . import tlc
 
 VERIF = tlc.VERIF
-EVID = os.path.join(VERIF, "evidence")
-REPLAYS = os.path.join(VERIF, "replays")
+# VERIF_OUT redirects evidence/replays of EXPERIMENTAL runs (seeded-change evaluation); registered commands never set it
+_OUT = os.environ.get("VERIF_OUT", VERIF)
+EVID = os.path.join(_OUT, "evidence")
+REPLAYS = os.path.join(_OUT, "replays")
 KF_FILE = os.path.join(VERIF, "known_findings.json")
 
 
